@@ -87,7 +87,8 @@ def read_nifti_image(path: PathUri) -> Tuple[Tensor, Grid]:
     # Reverse order of axes
     data = np.transpose(data, axes=tuple(reversed(range(data.ndim))))
     # Add leading channel dimension
-    grid = Grid(size=size, origin=origin, spacing=spacing, direction=direction)
+    D = min(D, realdim)
+    grid = Grid(size=size[:D], origin=origin[:D], spacing=spacing[:D], direction=direction[:D, :D])
     if data.ndim == grid.ndim:
         data = np.expand_dims(data, 0)
     if data.dtype == np.uint16:
